@@ -539,6 +539,8 @@ fn stream_kind(e: Exec, which: &str, kind: &str) -> Exec {
         ("stdin", "null") => e.stdin(NullFile),
         ("stdin", "file") => e.stdin(f(false)),
         ("stdin", "merge") => e.stdin(Redirection::Merge),
+        // ("data-" stands for empty input data: still input data, to be delivered -- as immediate end-of-file -- or refused)
+        ("stdin", "data-") => e.stdin(Vec::<u8>::new()),
         ("stdin", d) if d.starts_with("data") => e.stdin(d.as_bytes().to_vec()),
         ("stdout", "pipe") => e.stdout(Redirection::Pipe),
         ("stdout", "null") => e.stdout(NullFile),
